@@ -172,7 +172,7 @@ pub fn lying_insert_empty(mode: u8, have: usize) {
 
 /// Operations that clone or default-construct elements, crashing at the k-th Clone/Default call.
 /// op: 0 fill (owned), 1 fill (view_mut window), 2 clone_from_slice, 3 clone_from_toodee, 4 clone(),
-/// 5 TooDee::from(view)
+/// 5 TooDee::from(view), 6 Clone::clone_from from a source of another shape
 pub fn crash_clone(op: u8, c: usize, r: usize) {
     let mut t = owned_tok(c, r, false);
     let n = c * r;
@@ -194,6 +194,18 @@ pub fn crash_clone(op: u8, c: usize, r: usize) {
             let u = t.clone();
             drop(u);
         })
+    } else if op == 6 {
+        // source one row taller (or, for 1-row arrays, shorter is impossible: use a 1 x 1 source)
+        let s = if r > 1 { TooDee::from_vec(c, r - 1, toks(c * (r - 1), 60)) } else { TooDee::from_vec(c, r + 1, toks(c * (r + 1), 60)) };
+        let p = guarded(|| t.clone_from(&s));
+        observe_array(&t);
+        drop(src);
+        drop(s);
+        t.clear();
+        inv(&t);
+        drop(t);
+        end_reached!();
+        return;
     } else {
         // concrete window (a symbolic one gives the clone target a symbolic capacity)
         let (s, e) = ((if c > 1 { 1 } else { 0 }, 0), (c, r));
